@@ -40,6 +40,7 @@ class StringConcatViolation:
     line_number: int
     column: int
     loop_type: str  # 'for', 'for_in', 'while', 'do'
+    loop_line: int = 0  # line of the innermost enclosing loop (identifies the loop)
 
 
 # thailint: ignore-next-line[srp.violation] Uses small focused methods to reduce complexity
@@ -185,6 +186,7 @@ class TypeScriptStringConcatAnalyzer(TypeScriptBaseAnalyzer):
                 line_number=node.start_point[0] + 1,
                 column=node.start_point[1],
                 loop_type=loop_type,
+                loop_line=_enclosing_loop_line(node),
             )
         )
 
@@ -217,20 +219,31 @@ class TypeScriptStringConcatAnalyzer(TypeScriptBaseAnalyzer):
     def deduplicate_violations(
         self, violations: list[StringConcatViolation]
     ) -> list[StringConcatViolation]:
-        """Deduplicate violations to report one per variable.
+        """Deduplicate violations to report one per variable per loop.
 
         Args:
             violations: List of all violations found
 
         Returns:
-            Deduplicated list with one violation per variable
+            Deduplicated list with one violation per variable per loop
         """
-        seen: set[str] = set()
+        seen: set[tuple[str, int]] = set()
         result: list[StringConcatViolation] = []
 
         for v in violations:
-            if v.variable_name not in seen:
-                seen.add(v.variable_name)
+            key = (v.variable_name, v.loop_line)
+            if key not in seen:
+                seen.add(key)
                 result.append(v)
 
         return result
+
+
+def _enclosing_loop_line(node: Node) -> int:
+    """Line of the innermost loop around a node (identifies the loop), 0 if none."""
+    current = node.parent
+    while current is not None:
+        if current.type in LOOP_NODE_TYPES_TS:
+            return int(current.start_point[0]) + 1
+        current = current.parent
+    return 0
